@@ -25,6 +25,9 @@ with the C38 model of weights.go / coinGenerator.go).  Cryptography is a paramet
                                       says what acceptance then requires), lengthening / shortening the positions list
                                       (`positions_determined`: the list is a function of the coins; C38 bounds its length),
                                       and nothing here is probabilistic.
+  * `coinInSlot_nat`, `accepted_positions_positive_weight`  FULL  the verifier's wrapping uint64 comparison is
+                                      `L ≤ coin < L+Weight < 2^64` over ℕ; ANY accepted proof (forged arrays included)
+                                      answers every coin with a verifying signature of a positive-weight participant.
   * `round_same_period_accepted` FULL  a round in the SAME key period is not distinguishable (as coded).
   * `ledger_context`            FULL  ValidateStateProof accepts iff enabled ∧ attested round on the interval grid ∧
                                       signedWeight ≥ acceptable weight ∧ the verifier built from (votersCommitment,
@@ -512,6 +515,52 @@ theorem positions_determined (sigs : List (SigSlot S)) :
     cases h' with
     | cons hr' ht' => rw [slot_unique sigs hr hr', ih _ ht']
 
+/-! ### the coin-in-slot comparison, over the naturals -/
+
+/-- **The verifier's comparison `L <= coin && coin < L+Weight` (uint64, wrapping) over ℕ**: for uint64 operands it holds
+exactly when the coin lies in `[L, L+Weight)` AND that interval ends below 2^64.  In particular it never holds for a
+zero-weight participant, whatever `L` is.  (The harness ties the real comparison to this predicate on forged proofs: an
+exhaustive grid Weight 0..3 × L 0..4 × coins 0..5, and slots at the top of the uint64 range.) -/
+theorem coinInSlot_nat (r : Reveal S) (c : Nat) (hL : r.slot.L < two64) (hW : r.part.weight < two64) :
+    coinInSlot r c = true ↔
+      r.slot.L ≤ c ∧ c < r.slot.L + r.part.weight ∧ r.slot.L + r.part.weight < two64 := by
+  simp only [coinInSlot, Bool.and_eq_true, decide_eq_true_eq]
+  rw [Props.C38.two64_val] at hL hW ⊢
+  omega
+
+theorem coinInSlot_pos_weight (r : Reveal S) (c : Nat) (hL : r.slot.L < two64) (hW : r.part.weight < two64)
+    (h : coinInSlot r c = true) : 0 < r.part.weight := by
+  have := (coinInSlot_nat r c hL hW).1 h; omega
+
+theorem all2_exists_of_mem {α β : Type} {R : α → β → Prop} {as : List α} {bs : List β} (h : All2 R as bs)
+    {a : α} (ha : a ∈ as) : ∃ b, R a b := by
+  induction h with
+  | nil => simp at ha
+  | cons hr _ ih =>
+    rcases List.mem_cons.1 ha with rfl | ha
+    · exact ⟨_, hr⟩
+    · exact ih ha
+
+/-- **No coin is answered by a weightless or unsigned slot** — for ANY accepted proof (no assumption on the
+commitments; forged signature arrays included): every listed position is revealed, its reveal carries a signature that
+verifies under the revealed participant's key for the message and round, that participant's weight is positive, and some
+coin lies in `[L, L+Weight)` over ℕ.  (uint64 fields: `hb`.) -/
+theorem accepted_positions_positive_weight (E : Env S RS PS RP PP) (v : Verifier RP) (round data : Nat)
+    (s : StateProof S RS PS PP) (hok : verify E v round data s = .ok ())
+    (hb : ∀ pr ∈ s.reveals, pr.2.slot.L < two64 ∧ pr.2.part.weight < two64) :
+    ∀ p ∈ s.positions, ∃ r x c, s.reveals.lookup p = some r ∧ 0 < r.part.weight ∧
+      r.slot.L ≤ c ∧ c < r.slot.L + r.part.weight ∧ r.slot.sig = some x ∧
+      E.ss.verify r.part.pk (firstRoundInKeyLifetime round r.part.lifetime) data x = true := by
+  obtain ⟨_, _, _, _, _, _, _, hcoins⟩ := (verify_ok_iff E v round data s).1 hok
+  obtain ⟨cs, _, hall⟩ := checkCoins_inv _ _ _ _ hcoins
+  intro p hp
+  obtain ⟨c, r, hr, hin⟩ := all2_exists_of_mem hall hp
+  have hmem := lookup_some_mem p _ r hr
+  obtain ⟨hL, hW⟩ := hb (p, r) hmem
+  obtain ⟨x, hx, _, hv, _⟩ := accepted_sigs_verify E v round data s hok (p, r) hmem
+  have h3 := (coinInSlot_nat r c hL hW).1 hin
+  exact ⟨r, x, c, hr, by omega, h3.1, h3.2.1, hx, hv⟩
+
 /-! ### tamper rejection -/
 
 /-- a different MESSAGE is rejected (ideal signatures; the proof reveals at least one slot) -/
@@ -913,5 +962,11 @@ example : validateStateProof exEnv (fun _ => 45427) ⟨32, exV.partCommit, 5, 16
     validateStateProof exEnv (fun _ => 45427) ⟨33, exV.partCommit, 5, 16, 2 ^ 31, 4⟩ exProof 48 1 = .error .notMultiple ∧
     validateStateProof exEnv (fun _ => 45427) ⟨32, exV.partCommit, 9, 16, 2 ^ 31, 4⟩ exProof 40 1 = .error .insufficientWeight := by
   decide
+
+/-- `accepted_positions_positive_weight` / `coinInSlot_nat`: the uint64 bounds hold for the example, and the comparison
+rejects a zero-weight slot at L = 0 for every coin it is asked about -/
+example : (∀ pr ∈ exProof.reveals, pr.2.slot.L < two64 ∧ pr.2.part.weight < two64) ∧
+    (∀ c < 8, coinInSlot (⟨⟨some (exSig 8), 0⟩, ⟨8, 16, 0⟩⟩ : Reveal SymSig) c = false) ∧
+    coinInSlot (⟨⟨some (exSig 8), 1⟩, ⟨8, 16, 18446744073709551615⟩⟩ : Reveal SymSig) 5 = false := by decide
 
 end Props.C39
